@@ -42,6 +42,7 @@ where
     put_g1(&mut sb, 0);
     put_nonzero_scalar(&mut sb, 48);
     let sig = Signature::<BBSplus<CS>>::from_bytes(&sb).unwrap();
+    tp!("kind", "sigflow"); tp!("suite", crate::h::c08::suite_tag::<CS>()); tp!("msgs", &msgs); tp!("hdr", hdr); tp!("msgs_none", MNONE);
     program(L + 1);
     let r = sig.verify(&pk, if MNONE { None } else { Some(&msgs) }, hdr);
     let o = oracle();
@@ -91,6 +92,7 @@ where
     let b_ref = rf::b_value(&stubs::p1_of::<CS>(), &gens[0], &gens[1..], &d, &ms);
     kani::assume(sk.0 + e_ref != Scalar::ZERO);
     kani::assume(b_ref != G1Projective::IDENTITY);
+    tp!("kind", "sigflow"); tp!("suite", crate::h::c08::suite_tag::<CS>()); tp!("msgs", &msgs); tp!("hdr", hdr); tp!("msgs_none", MNONE);
     let r = Signature::<BBSplus<CS>>::sign(if MNONE { None } else { Some(&msgs) }, &sk, &pk, hdr);
     o.on = false;
     kani::cover!(r.is_ok(), "sign succeeds");
